@@ -70,19 +70,8 @@ func (u *UploadRequest) HandleInfo(ctx context.Context, messageName string, mess
 		return nil
 
 	case "data":
-		var err error
-		u.once.Do(func() {
-			createTemp := u.CreateTemp
-			if createTemp == nil {
-				createTemp = func() (*os.File, error) {
-					return os.CreateTemp("", "fdo.upload_*")
-				}
-			}
-			u.temp, err = createTemp()
-			u.hash = sha512.New384()
-		})
-		if err != nil {
-			return fmt.Errorf("error creating temp file for upload of %q: %w", u.Name, err)
+		if err := u.createTemp(); err != nil {
+			return err
 		}
 		var chunk []byte
 		for {
@@ -115,10 +104,34 @@ func (u *UploadRequest) ProduceInfo(ctx context.Context, producer *serviceinfo.P
 	if !u.requested {
 		return u.request(producer)
 	}
-	if len(u.sha384) > 0 && u.length > 0 && u.written >= u.length {
+	// The device sends the digest after the last data chunk, so once it has
+	// arrived the upload is complete - whatever length was announced.
+	if len(u.sha384) > 0 {
 		return u.finalize()
 	}
 	return false, false, nil
+}
+
+// createTemp opens the temp file and hash on first use.
+func (u *UploadRequest) createTemp() error {
+	var err error
+	u.once.Do(func() {
+		createTemp := u.CreateTemp
+		if createTemp == nil {
+			createTemp = func() (*os.File, error) {
+				return os.CreateTemp("", "fdo.upload_*")
+			}
+		}
+		u.temp, err = createTemp()
+		u.hash = sha512.New384()
+	})
+	if err != nil {
+		return fmt.Errorf("error creating temp file for upload of %q: %w", u.Name, err)
+	}
+	if u.temp == nil {
+		return fmt.Errorf("no temp file for upload of %q", u.Name)
+	}
+	return nil
 }
 
 func (u *UploadRequest) request(producer *serviceinfo.Producer) (blockPeer, moduleDone bool, _ error) {
@@ -148,14 +161,28 @@ func (u *UploadRequest) request(producer *serviceinfo.Producer) (blockPeer, modu
 }
 
 func (u *UploadRequest) finalize() (blockPeer, moduleDone bool, _ error) {
-	if u.written > u.length {
-		return false, false, fmt.Errorf("uploaded file %q: received %d bytes, expected %d", u.Name, u.written, u.length)
+	// An empty file has no data messages
+	if err := u.createTemp(); err != nil {
+		return false, false, err
+	}
+	if err := u.verifyAndStore(); err != nil {
+		// Do not leave a rejected upload behind
+		_ = u.temp.Close()
+		_ = os.Remove(u.temp.Name())
+		return false, false, err
+	}
+	return false, true, nil
+}
+
+func (u *UploadRequest) verifyAndStore() error {
+	if u.written != u.length {
+		return fmt.Errorf("uploaded file %q: received %d bytes, expected %d", u.Name, u.written, u.length)
 	}
 	if !bytes.Equal(u.sha384, u.hash.Sum(nil)[:]) {
-		return false, false, fmt.Errorf("uploaded file %q: SHA-384 did not match", u.Name)
+		return fmt.Errorf("uploaded file %q: SHA-384 did not match", u.Name)
 	}
 	if err := u.temp.Close(); err != nil {
-		return false, false, fmt.Errorf("error closing temp file for upload %q: %w", u.Name, err)
+		return fmt.Errorf("error closing temp file for upload %q: %w", u.Name, err)
 	}
 	// TODO: Enforce chroot-like security
 	if u.Rename == "" {
@@ -163,7 +190,7 @@ func (u *UploadRequest) finalize() (blockPeer, moduleDone bool, _ error) {
 	}
 	oldpath, newpath := u.temp.Name(), filepath.Join(u.Dir, u.Rename)
 	if err := os.Rename(oldpath, newpath); err != nil {
-		return false, false, fmt.Errorf("error renaming temp file %q to %q: %w", oldpath, newpath, err)
+		return fmt.Errorf("error renaming temp file %q to %q: %w", oldpath, newpath, err)
 	}
-	return false, true, nil
+	return nil
 }
